@@ -6,8 +6,8 @@ PROP = dict(
     level_text=("Monitored executions of the real array/buffer/slice code: PRNG histories over 4 array handles and a slice handle "
                 "(clone, append, insert, typed set, writable slice, cut, truncate, reserve, reduce, printf, string, slice write) with lengths "
                 "chosen around used size, capacity and the 128-byte allocation granule, on unshared, shared, immutable and no-copy buffers; "
-                "after every operation every handle is read back and compared with its shadow vector.  Exploration, not proof."),
-    level_note="trusts the shadow-vector model in harness/c04_*.c/.cpp, gcc ASan+UBSan; shrinking reserve / type-changing reserve are adopted (only prefix property and other handles asserted)",
+                "after every operation every handle is read back and compared with its shadow vector; a third leg drives the library functions that grow typed arrays for their callers (mpt_values_prepare, mpt_valfmt_add/parse) under the same oracle.  Exploration, not proof."),
+    level_note="trusts the shadow-vector model in harness/c04_*.c/.cpp, gcc ASan+UBSan; shrinking reserve is adopted (prefix property and other handles asserted); a type-changing reserve must leave the handle empty",
     legs=[dict(name="c04_array", memcheck=1500, src=["c04_array.c"], libs=["mptcore"], batch=512, lsan=True,
                floors={"array_append": 1000, "array_insert": 1000, "array_set": 1000, "array_slice": 1000, "buffer_cut": 1000,
                        "array_reserve": 1000, "printf": 1000, "slice_write": 1000, "state:shared": 5000, "state:immutable": 200,
@@ -15,10 +15,14 @@ PROP = dict(
           dict(name="c04_cxx", memcheck=500, src=["c04_cxx.cpp"], libs=["mpt++", "mptio", "mptplot", "mptcore"], batch=512, lsan=True,
                floors={"insert": 1000, "append": 1000, "set": 1000, "printf": 1000, "slice_write": 500, "state:shared": 5000,
                        "typed_array_insert": 2000, "unique_array_insert": 1000, "map_set": 2000, "map_get": 2000,
-                       "pointer_compact": 2000})],
+                       "pointer_compact": 2000}),
+          dict(name="c04_users", memcheck=500, src=["c04_users.c"], libs=["mptplot", "mptcore"], batch=512, lsan=True,
+               floors={"values_prepare:append": 50000, "values_prepare:repeat": 20000, "valfmt_add": 20000, "valfmt_parse": 5000,
+                       "state:shared": 20000, "state:shared-with-spare-capacity": 5000, "state:immutable": 2000,
+                       "state:repeat-more-than-stored": 2000, "monitor:all-handle-readbacks": 500000})],
     rule=("case = one PRNG history of 10..70 (quick) / 10..120 (thorough) operations over 4 array handles + 1 slice handle; "
           "non-trivial = some buffer was shared between handles and >= 3 mutating operations ran while sharing existed; "
           "distinct = 64-bit hash of the operation list with arguments"),
-    assumptions=SAN_BASE + ["refusal (NULL / negative return) is accepted for buffers flagged immutable or no-copy",
+    assumptions=SAN_BASE + ["refusal (NULL / negative return) is accepted only for buffers that forbid copies (no-copy flag); an immutable buffer is replaced by a private copy",
                             "mpt_buffer_cut is a buffer-level call: the harness detaches a shared buffer (mpt_array_slice(arr,0,0)) first, as a caller must"],
 )
